@@ -80,7 +80,17 @@ def replay_case(ctx, sc, k):
     elif tk == 'othercurve':
         vcurve = tc
         vpub = cr.public_key(tc, cr.secret_from(tc, ('c07', ctx.seed, k)))
+    elif tk == 'twinkey':       # same x, other y parity: a valid point, somebody else's key
+        vpub = bytes([pub[0] ^ 1]) + pub[1:]
+    elif tk == 'offcurve':      # the nearest x (one bit flipped) that is on no point of the curve
+        vpub = cr.offcurve_twin(curve, pub)
     vpk = cr.pk_b58(vcurve, vpub)
+    if tk == 'twinkey':
+        # the signer's own key is used first (this is what makes the twin a meaningful test: any state kept per key must not leak to it)
+        from pytezos.crypto.key import Key
+        if Key.from_encoded_key(cr.pk_b58(curve, pub)).verify(sig, m_in) is not True:
+            ctx.mismatch('C07:verify:%s:own-key-before-twin' % cname, 'Key.verify under the signer\'s own key does not accept\n%s' % desc, case)
+            return False, True
     vsig = sig
     if tk == 'sigbit':
         vsig = b58.check_encode(b58.P[kind], kf.flip(raw, inp['sigbit']))     # still a well-formed signature of the same kind
@@ -104,6 +114,8 @@ def replay_case(ctx, sc, k):
         ok = False
     # ---- CHECK_SIGNATURE ----
     c, txt = memo(vcurve, ('check', vpk, vsig, vmsg), lambda: kf.check_signature(vpk, vsig, vmsg))
+    if tk == 'offcurve' and c.startswith('raises-'):
+        c = cverdict       # no key of the kind exists with these bytes: failing is as good as pushing False (the model's point is: never True)
     if c != cverdict:
         ctx.mismatch('C07:check_signature:%s:%s:model-%s-got-%s' % (cname, tname, cverdict, c),
                      'CHECK_SIGNATURE: model pushes %s, pytezos %s %s\n%s' % (cverdict, c, txt, desc), case)
@@ -121,7 +133,7 @@ def cases(ctx, curve):
 
 
 def run(ctx):
-    ctx.rule = ('Leg A: KeyFlow flow "sign" - every (curve, signature form, message form, tamper kind incl. each other curve) scenario, '
+    ctx.rule = ('Leg A: KeyFlow flow "sign" - every (curve, signature form, message form, tamper kind incl. each other curve, and for the ECDSA curves the twin key of opposite parity and an off-curve key) scenario, '
                 'stepwise Key.verify (prefix step, scheme step) against the declarative Valid; Leg B: every completed scenario x K seeded '
                 'keys/messages (K = 3 quick / 200 thorough; BLS 1 / 20; the untampered curve-form scenario of the three non-BLS curves on 900 / 6000 messages, so that r / s with leading zero bytes occur): pytezos signs, an independent implementation verifies the raw signature over the '
                 'model\'s digest, Key.verify (public key only) and CHECK_SIGNATURE must give the model\'s verdict; every evaluated case is non-trivial '
@@ -140,8 +152,8 @@ def run(ctx):
         raise MachineryError('Dev_SigPrefix should violate SignEnabled, TLC says %s' % r2.violation)
     ctx.notes.append('KeyFlow with AsCoded=TRUE (generic kind `sig` for every curve): TLC reports SignEnabled violated for the BLS key, as expected')
     outs = [v for v in r.printed if v[0] == 'OUT' and v[1] == 'sign']
-    if len(outs) != 4 * 2 * 3 * 7:
-        raise MachineryError('expected 168 scenarios, TLC printed %d' % len(outs))
+    if len(outs) != (7 + 7 + 9 + 9) * 2 * 3:
+        raise MachineryError('expected 192 scenarios, TLC printed %d' % len(outs))
     for sc in outs:
         curve = sc[2]
         kk = cases(ctx, curve)
